@@ -13,6 +13,7 @@ type symCfg struct {
 	refs     bool // plant $ref (each under its own presence bit)
 	patterns bool // plant patterns (symbolic, possibly empty)
 	enums    bool // plant enums (absent or one opaque value)
+	refLeaf  bool // a schema that carries a $ref carries nothing else (as a JSON $ref object is read)
 	types    bool // symbolic schema type / format (C20)
 	nameLen  int  // max length of symbolic names
 	unicode  bool // names over the full alphabet incl. 2-byte UTF-8 (else ASCII part)
@@ -95,6 +96,9 @@ func symSchema(cfg *symCfg, tag string, depth int) spec.Schema {
 	var s spec.Schema
 	cfg.plantSimple(tag, &s.Ref, &s.Pattern, &s.Enum)
 	if depth <= 0 {
+		return s
+	}
+	if cfg.refLeaf && cfg.refs && vrfBool(tag+".ref") {
 		return s
 	}
 	kw := cfg.keywords
